@@ -20,6 +20,21 @@ pub mod verif_facade {
             match cmd.as_str() {
                 "depfile" => crate::depfile::verif_depfile(arg(0)),
                 "excerpt" => crate::scanner::verif_excerpt(arg(0), args.get(1).and_then(|s| s.parse().ok()).unwrap_or(0)),
+                "dbcrash" => crate::db::verif_native::dbcrash(
+                    args.get(0).map(|s| s.as_str()).unwrap_or("-"),
+                    args.get(1).and_then(|s| s.parse().ok()).unwrap_or(0),
+                    args.get(2).map(|s| s.as_str()).unwrap_or("0:0:0"),
+                ),
+                "dbattr" => crate::db::verif_native2::dbattr(
+                    args.get(0).map(|s| s.as_str()).unwrap_or("---"),
+                    args.get(1).map(|s| s.as_str()).unwrap_or("-"),
+                    args.get(2).map(|s| s.as_str()).unwrap_or("---"),
+                    args.get(3).map(|s| s == "rev").unwrap_or(false),
+                ),
+                "dbwide" => crate::db::verif_native2::dbwide(
+                    args.get(0).and_then(|s| s.parse().ok()).unwrap_or(1),
+                    args.get(1).and_then(|s| s.parse().ok()).unwrap_or(0),
+                ),
                 "load" => crate::load::verif_load_text(arg(0)),
                 "canon" => {
                     let mut s = unsafe { String::from_utf8_unchecked(arg(0)) };
